@@ -49,12 +49,14 @@ class Tagger:
     # call name -> index of the argument the call passes through unchanged (for our purposes)
     IDENT = {'indexer': 0, 'list': 0, 'tuple': 0, 'inds_into_local_distrib': 3}
 
-    def __init__(self, fn):
+    def __init__(self, fn, subst=None):
         self.fn = fn
         self.g = cfgm.build(fn)
         self.rd = cfgm.ReachingDefs(self.g)
         a = fn.node.args
         self.params = [x.arg for x in a.posonlyargs + a.args + a.kwonlyargs]
+        # parameter name -> tags of the caller's argument (an extracted helper followed from its call site)
+        self.subst = dict(subst or {})
 
     def at(self, expr):
         """CFG node at which *expr* is evaluated."""
@@ -93,7 +95,10 @@ class Tagger:
             out = set()
             for d in ds:
                 if d is self.g.entry:
-                    out.add(f'param:{e.id}')
+                    if e.id in self.subst:
+                        out |= set(self.subst[e.id])
+                    else:
+                        out.add(f'param:{e.id}')
                 elif d.kind == 'stmt' and isinstance(d.ast, ast.Assign) and len(d.ast.targets) == 1 and \
                         isinstance(d.ast.targets[0], ast.Name) and d.ast.targets[0].id == e.id:
                     out |= self.tags(d.ast.value, d, depth + 1)
@@ -702,8 +707,9 @@ def _classify_value(repo, tg, e, at):
     cset = repo.func(CG, 'AllConnGraph.convert_set')
     kinds = set()
     for o, n in _origins(tg, e, at):
-        if o == 'param:val':
-            kinds.add('raw')
+        if isinstance(o, str) and o.startswith('param:'):
+            res = tg.subst.get(o[6:], {o})
+            kinds.add('raw' if set(res) == {'param:val'} else 'unknown')
         elif isinstance(o, ast.Call) and astx.callee_attr(o) == 'convert_set':
             b = bind(o, cset)
             if b is None or not {'val', 'src_units'} <= set(b):
@@ -753,42 +759,66 @@ _WHY_RAW = {'raw': 'the user value is stored without unit conversion (units= is 
 @rule('C07.value', floor=7)
 def value(repo, out):
     """set_val stores convert_set(val -> source units), never the raw or the input-units value."""
-    fn = repo.func(CG, 'AllConnGraph.set_val')
     sub = repo.func(CG, 'AllConnGraph.set_subarray')
-    tg = Tagger(fn)
-    sinks = []   # (call/stmt, value expr, allowed kinds, label)
-    for c in calls_named(fn, 'set_subarray'):
-        b = bind(c, sub)
-        if b is None or 'val' not in b:
-            out.unsure(fn, c, 'cannot bind set_subarray arguments')
-            continue
-        sinks.append((c, b['val'], {'conv-src'}, 'set_subarray value'))
-    for c in calls_named(fn, '_abs_set_val'):
-        r = astx.receiver(c)
-        if r is None or not any(t == MODEL + '._outputs' for t in tg.tags(r, tg.at(c))):
-            continue
-        if len(c.args) >= 2:
-            sinks.append((c, c.args[1], {'conv-src', 'store'}, 'output vector write'))
-    for c in calls_named(fn, '_abs_set_val'):
-        r = astx.receiver(c)
-        if r is None or not any(t == MODEL + '._inputs' for t in tg.tags(r, tg.at(c))):
-            continue
-        if len(c.args) >= 2:
-            if tg.tags(c.args[0], tg.at(c)) != {NODE + '[1]'}:
-                out.unsure(fn, c, 'input vector write does not address the named input itself')
+    KNOWN = {'set_subarray', 'convert_set', 'convert_get', 'set_tree_val', 'find_node', 'get_root',
+             'inds_into_local_distrib', 'leaf_input_iter', 'absnames', 'msgname', '_collect_error', 'get_subarray'}
+    sinks = []   # (fn, tagger, call/stmt, value expr, allowed kinds, label)
+
+    def collect(fn, tg, depth):
+        for c in calls_named(fn, 'set_subarray'):
+            b = bind(c, sub)
+            if b is None or 'val' not in b:
+                out.unsure(fn, c, 'cannot bind set_subarray arguments')
                 continue
-            sinks.append((c, c.args[1], {'conv-tgt'}, 'input vector write'))
-    for c in calls_named(fn, 'set_tree_val'):
-        if _in_discrete_branch(tg, astx.stmt_of(c)):
-            continue
-        if len(c.args) >= 3:
-            sinks.append((c, c.args[2], {'conv-src', 'store'}, 'metadata tree write'))
-    for st in astx.walk_stmts(fn.node.body):
-        if isinstance(st, ast.Assign) and len(st.targets) == 1 and isinstance(st.targets[0], ast.Attribute) \
-                and st.targets[0].attr == 'val':
-            if tg.tags(st.targets[0].value, tg.at(st)) == {meta(ROOT)}:
-                sinks.append((st, st.value, {'conv-src'}, 'source metadata write'))
-    for where, v, allowed, label in sinks:
+            sinks.append((fn, tg, c, b['val'], {'conv-src'}, 'set_subarray value'))
+        for c in calls_named(fn, '_abs_set_val'):
+            r = astx.receiver(c)
+            rt = tg.tags(r, tg.at(c)) if r is not None else set()
+            if len(c.args) < 2:
+                continue
+            if rt == {MODEL + '._outputs'}:
+                sinks.append((fn, tg, c, c.args[1], {'conv-src', 'store'}, 'output vector write'))
+            elif rt == {MODEL + '._inputs'}:
+                if tg.tags(c.args[0], tg.at(c)) != {NODE + '[1]'}:
+                    out.unsure(fn, c, 'input vector write does not address the named input itself')
+                    continue
+                sinks.append((fn, tg, c, c.args[1], {'conv-tgt'}, 'input vector write'))
+        for c in calls_named(fn, 'set_tree_val'):
+            if _in_discrete_branch(tg, astx.stmt_of(c)):
+                continue
+            if len(c.args) >= 3:
+                sinks.append((fn, tg, c, c.args[2], {'conv-src', 'store'}, 'metadata tree write'))
+        for st in astx.walk_stmts(fn.node.body):
+            if isinstance(st, ast.Assign) and len(st.targets) == 1 and isinstance(st.targets[0], ast.Attribute) \
+                    and st.targets[0].attr == 'val':
+                if tg.tags(st.targets[0].value, tg.at(st)) == {meta(ROOT)}:
+                    sinks.append((fn, tg, st, st.value, {'conv-src'}, 'source metadata write'))
+        # extracted helpers: follow `self.<method>(...)` into methods of the same class that store something
+        if depth >= 2:
+            return
+        for st in astx.walk_stmts(fn.node.body):
+            for c in _stmt_calls(st):
+                nm = astx.callee_attr(c)
+                if astx.path(astx.receiver(c)) != 'self' or nm in KNOWN or nm is None:
+                    continue
+                h = repo.try_func(CG, f'AllConnGraph.{nm}')
+                if h is None or h.node is fn.node:
+                    continue
+                if not any(astx.callee_attr(x) in ('_abs_set_val', 'set_subarray', 'set_tree_val')
+                           for x in astx.calls(h.node)):
+                    continue
+                if _in_discrete_branch(tg, astx.stmt_of(c)):
+                    continue
+                b = bind(c, h)
+                if b is None:
+                    out.unsure(fn, c, f'cannot bind the arguments of helper {nm}')
+                    continue
+                at = tg.at(c)
+                collect(h, Tagger(h, {p_: tg.tags(e_, at) for p_, e_ in b.items()}), depth + 1)
+
+    root = repo.func(CG, 'AllConnGraph.set_val')
+    collect(root, Tagger(root), 0)
+    for fn, tg, where, v, allowed, label in sinks:
         kinds = _classify_value(repo, tg, v, tg.at(where))
         wrong = kinds & ({'raw', 'conv-src'} if 'conv-tgt' in allowed else {'raw', 'conv-tgt'})
         if wrong:
@@ -1766,6 +1796,26 @@ _CARRY = ("                if node_meta.discrete:\n                    self._dis
           "                else:\n                    self._outputs.set_var(name, node_meta.val)\n")
 _IVS_IF = "        if self._flat_src:\n            # arr.flat writes through"
 
+_ABSIN = ("                try:\n                    tval = self.convert_set(val, tgt_units, tgt_units, (),  units)\n"
+          "                except Exception as err:\n"
+          "                    self._collect_error(f\"{system.msginfo}: Can't set value of \"\n"
+          "                                        f\"'{self.msgname(node)}': {str(err)}\")\n"
+          "                    return\n                if indices is None:\n"
+          "                    model._inputs._abs_set_val(node[1], tval)\n                else:\n"
+          "                    model._inputs._abs_set_val(node[1], tval, idx=indices())\n")
+_ABSIN_CALL = "                self._set_abs_input_val(system, model, node, val, tgt_units, units, indices)\n"
+_TREEDEF = "    def set_tree_val(self, model, src_node, srcval):\n"
+
+
+def _helper(v_plain, v_idx, src_slot='tgt_units'):
+    return ("    def _set_abs_input_val(self, system, model, node, val, tgt_units, units, indices):\n"
+            "        abs_in = node[1]\n        try:\n"
+            f"            tval = self.convert_set(val, {src_slot}, tgt_units, (), units)\n"
+            "        except Exception as err:\n            self._collect_error(str(err))\n            return\n"
+            f"        if indices is None:\n            model._inputs._abs_set_val(abs_in, {v_plain})\n"
+            f"        else:\n            model._inputs._abs_set_val(abs_in, {v_idx}, idx=indices())\n\n" + _TREEDEF)
+
+
 _FINDNODE = ("        if pathname:\n            prefix = pathname + '.'\n            if varname.startswith(prefix):\n"
              "                name = varname\n            else:\n                name = pathname + '.' + varname\n"
              "        else:\n            name = varname\n")
@@ -2013,6 +2063,13 @@ selftest(
            "        if src_units == units:\n            return val\n\n"
            "        scale, offset = unit_conversion(src_units, units)\n\n        return (val + offset) * scale\n",
            'C07.units'),
+    # ---- robustness round 3: input mirror extracted into a helper method
+    Twin('twin-value-helper-extracted', CG, _ABSIN, _ABSIN_CALL, also=[(CG, _TREEDEF, _helper('tval', 'tval'))]),
+    Mutant('value-helper-writes-raw', CG, _ABSIN, _ABSIN_CALL, 'C07.value',
+           also=[(CG, _TREEDEF, _helper('tval', 'val'))]),
+    Mutant('value-helper-called-with-source-units', CG, _ABSIN,
+           "                self._set_abs_input_val(system, model, node, val, src_units, units, indices)\n", 'C07.value',
+           also=[(CG, _TREEDEF, _helper('tval', 'tval'))]),
     # ---- twins
     Twin('twin-units-flip-compare', CG, '            if src_units != units:', '            if units != src_units:'),
     Twin('twin-units-commuted-formula', CG, 'return (val + offset) * scale', 'return scale * (offset + val)', nth=1),
